@@ -68,6 +68,16 @@ theorem C33_import_then_serialize (j : Json) :
   unfold decodeEvents
   rw [run_val (importVal j) (.running []) (.done (importVal j).image) rfl]
 
+/-- starting from a DOCUMENT instead of a JSON value: what the CLI exports for any document —
+    conflicts, deleted keys, counters, timestamps, bytes, text objects, unsigned integers … — is a
+    fixed point of `import | export` (counters/timestamps come back as plain integers and bytes as
+    arrays in the re-imported DOCUMENT, but the JSON is the same).  `v.InRange` says the document's
+    integers fit their Rust types; `v.isMap` that `v` is a document root. -/
+theorem C33_export_is_fixed_point (v : Val) (hr : v.InRange) (hroot : v.isMap = true) :
+    cliRoundTrip (exportJson v) = .ok (exportJson v) := by
+  apply C33_export_import_id _ (export_WF v hr)
+  cases v <;> simp_all [Val.isMap, exportJson, Val.image, SVal.toJson, Json.isObj]
+
 /-
   NOT PROVED — and false of the real binary (finding, see the harness oracle line
   `! C33 [float-text-parse]`): the TEXT-level round trip
